@@ -209,6 +209,43 @@ Proof.
   - unfold handle in H. rewrite G in H. inversion H; subst; auto.
 Qed.
 
+Lemma handle_w_links : forall s n from a s' out res, handle_w s n from a = (s', out, res) -> st_links s' = st_links s.
+Proof.
+  intros s n from a s' out res H. unfold handle_w in H. destruct (get (st_nodes s) n) as [ns|].
+  - destruct (seen_has _ _ _); [inversion H; subst; auto|]. destruct (memN _ _); inversion H; subst; auto.
+  - inversion H; subst; auto.
+Qed.
+
+Lemma withdraw_links : forall s n s' out, withdraw s n = (s', out) -> st_links s' = st_links s.
+Proof.
+  intros s n s' out H. unfold withdraw in H. destruct (get (st_nodes s) n) as [ns|]; [|inversion H; subst; auto].
+  destruct (filter is_cidr_route (ns_locals ns)); inversion H; subst; auto.
+Qed.
+
+(** effects of [handle_w] *)
+Lemma handle_w_cases : forall s n from a s' out res ns,
+  handle_w s n from a = (s', out, res) -> get (st_nodes s) n = Some ns ->
+  (seen_has (a_origin a) (a_seq a) (ns_seen ns) = true /\ s' = s /\ out = []) \/
+  (seen_has (a_origin a) (a_seq a) (ns_seen ns) = false /\ exists ns',
+    s' = {| st_nodes := set (st_nodes s) n ns'; st_links := st_links s; st_flight := st_flight s; st_now := st_now s |} /\
+    ns_seen ns' = ns_seen ns ++ [{| s_origin := a_origin a; s_seq := a_seq a; s_at := st_now s; s_from := from |}] /\
+    (forall e, In e (ns_entries ns') -> In e (ns_entries ns)) /\
+    (forall e, In e (ns_entries ns) -> e_origin e <> a_origin a -> In e (ns_entries ns')) /\
+    (forall m, In m out -> a_origin (m_adv m) = a_origin a /\ a_seq (m_adv m) = a_seq a)).
+Proof.
+  intros s n from a s' out res ns H G. unfold handle_w in H. rewrite G in H.
+  destruct (seen_has (a_origin a) (a_seq a) (ns_seen ns)) eqn:Seen.
+  { inversion H; subst. left. auto. }
+  right. split; auto.
+  destruct (memN n (a_seenby a)).
+  { inversion H; subst. eexists. split; [reflexivity|]. simpl. repeat split; auto; simpl in *; contradiction. }
+  inversion H; subst. eexists. split; [reflexivity|]. simpl. split; [auto|]. split; [|split].
+  - intros e He. apply filter_In in He. tauto.
+  - intros e He Ho. apply filter_In. split; auto. unfold withdrawn.
+    apply N.eqb_neq in Ho. rewrite Ho. rewrite andb_false_r. auto.
+  - intros m Hm. apply in_map_iff in Hm. destruct Hm as [p [E _]]. subst. auto.
+Qed.
+
 Lemma update_node_links : forall s n f, st_links (update_node s n f) = st_links s.
 Proof. intros. unfold update_node. destruct (get (st_nodes s) n); auto. Qed.
 
@@ -216,11 +253,15 @@ Lemma next_links_irrefl : forall cf s op,
   (forall a, linked (st_links s) a a = false) -> forall a, linked (st_links (next cf s op)) a a = false.
 Proof.
   intros cf s op H x. unfold next.
-  destruct op as [n|i dup|n o sq|d|a b|a b|n k id metric|n maxage]; simpl.
+  destruct op as [n|n|i dup|n o sq|d|a b|a b|n k id metric|n maxage]; simpl.
   - destruct (announce s n) as [s' out] eqn:E. simpl. rewrite (announce_links _ _ _ _ E). auto.
+  - destruct (withdraw s n) as [s' out] eqn:E. simpl. rewrite (withdraw_links _ _ _ _ E). auto.
   - destruct (nth_error (st_flight s) i) as [m|]; simpl; auto.
-    destruct (handle cf _ (m_to m) (m_from m) (m_adv m)) as [[s2 out] res] eqn:E. simpl.
-    rewrite (handle_links _ _ _ _ _ _ _ _ E). simpl. auto.
+    destruct (is_w (m_adv m)).
+    + destruct (handle_w _ (m_to m) (m_from m) (m_adv m)) as [[s2 out] res] eqn:E. simpl.
+      rewrite (handle_w_links _ _ _ _ _ _ _ E). simpl. auto.
+    + destruct (handle cf _ (m_to m) (m_from m) (m_adv m)) as [[s2 out] res] eqn:E. simpl.
+      rewrite (handle_links _ _ _ _ _ _ _ _ E). simpl. auto.
   - rewrite update_node_links. auto.
   - destruct (st_now s <? _); simpl; auto.
   - destruct (valid_node s a && valid_node s b && negb (a =? b) && negb (linked (st_links s) a b)) eqn:Cnd; simpl; auto.
@@ -340,7 +381,15 @@ Section Conv.
   Definition quiet_op (op : op) : Prop :=
     match op with
     | Connect _ _ | Disconnect _ _ | Cleanup _ _ => False
-    | Announce n => n <> o
+    | Announce n | Withdraw n => n <> o
+    | _ => True
+    end.
+
+  (** the step does not hand a withdrawal of the same origin to anybody (a
+      withdrawal removes the origin's CIDR routes whatever their sequence) *)
+  Definition no_withdrawal_of_o (s : state) (op : op) : Prop :=
+    match op with
+    | Deliver i _ => forall m, nth_error (st_flight s) i = Some m -> is_w (m_adv m) = true -> a_origin (m_adv m) <> o
     | _ => True
     end.
 
@@ -372,6 +421,39 @@ Section Conv.
     { intros f x. rewrite entries_of_with_flight. unfold s2. erewrite entries_of_set by eauto.
       destruct (x =? n) eqn:Ex; auto. apply N.eqb_eq in Ex. subst. unfold entries_of. rewrite G. auto. }
     apply (conv_frame s); auto.
+    - apply (cv_links s C).
+    - simpl. lia.
+    - intros x. unfold has_seen. rewrite Hseen. auto.
+    - intros x e Hx He Ho. left. rewrite Hent in He. auto.
+    - intros x e Hx He Ho Hq. rewrite Hent. auto.
+    - intros m Hm Ho. simpl in Hm. apply in_app_or in Hm. destruct Hm as [Hm|Hm]; auto.
+      apply in_map_iff in Hm. destruct Hm as [p [Ep _]]. subst. simpl in Ho. congruence.
+    - intros m Hm Hk. left. simpl. apply in_or_app. auto.
+  Qed.
+
+  Lemma conv_step_withdraw : forall s n, conv s -> n <> o -> conv (next cf s (Withdraw n)).
+  Proof.
+    intros s n C Hn. unfold next. simpl.
+    destruct (withdraw s n) as [s' out] eqn:E. simpl.
+    assert (Hr := reach_next s (Withdraw n) (cv_reach s C)). unfold next in Hr. simpl in Hr. rewrite E in Hr. simpl in Hr.
+    unfold withdraw in E. destruct (get (st_nodes s) n) as [ns|] eqn:G.
+    2:{ injection E as E1 E2. subst s' out.
+        replace (with_flight s (st_flight s ++ [])) with s; auto.
+        destruct s; unfold with_flight; simpl; rewrite app_nil_r; auto. }
+    destruct (filter is_cidr_route (ns_locals ns)) as [|r0 rs] eqn:F.
+    { injection E as E1 E2. subst s' out.
+      replace (with_flight s (st_flight s ++ [])) with s; auto.
+      destruct s; unfold with_flight; simpl; rewrite app_nil_r; auto. }
+    injection E as E1 E2. subst s' out.
+    set (ns' := {| ns_seq := ns_seq ns + 1; ns_entries := ns_entries ns; ns_seen := ns_seen ns; ns_locals := ns_locals ns |}) in *.
+    set (s2 := {| st_nodes := set (st_nodes s) n ns'; st_links := st_links s; st_flight := st_flight s; st_now := st_now s |}) in *.
+    assert (Hseen : forall f x, seen_of (with_flight s2 f) x = seen_of s x).
+    { intros f x. rewrite seen_of_with_flight. unfold s2. erewrite seen_of_set by eauto.
+      destruct (x =? n) eqn:Ex; auto. apply N.eqb_eq in Ex. subst. unfold seen_of. rewrite G. auto. }
+    assert (Hent : forall f x, entries_of (with_flight s2 f) x = entries_of s x).
+    { intros f x. rewrite entries_of_with_flight. unfold s2. erewrite entries_of_set by eauto.
+      destruct (x =? n) eqn:Ex; auto. apply N.eqb_eq in Ex. subst. unfold entries_of. rewrite G. auto. }
+    refine (conv_frame s _ C Hr _ _ _ _ _ _ _).
     - apply (cv_links s C).
     - simpl. lia.
     - intros x. unfold has_seen. rewrite Hseen. auto.
@@ -527,17 +609,17 @@ Section Conv.
       and they stop it from forwarding only when the frame has already been
       seen by every other agent *)
   Lemma limits_never_apply : forall s m,
-    (exists ops0, s = run cf (init K) ops0) -> In m (st_flight s) ->
+    (exists ops0, s = run cf (init K) ops0) -> In m (st_flight s) -> is_w (m_adv m) = false ->
     ~ In (m_to m) (a_seenby (m_adv m)) -> (N.to_nat (m_to m) < K)%nat ->
     over_limit (limit_of cf (m_to m)) (lenN (a_path (m_adv m))) = false /\
     (at_limit (limit_of cf (m_to m)) (lenN (a_path (m_adv m))) = false \/
      forall p, (N.to_nat p < K)%nat -> In p (a_seenby (m_adv m) ++ [m_to m])) /\
     memN (m_to m) (a_path (m_adv m)) = false /\ In (a_origin (m_adv m)) (a_seenby (m_adv m)).
   Proof.
-    intros s m [ops0 Es] Hm Hnot HtK. subst s.
-    destruct (path_inv_run cf K ops0) as [_ [_ HP]]. destruct (HP _ Hm) as [P1 [P2 [P3 [P4 P5]]]].
+    intros s m [ops0 Es] Hm Hw Hnot HtK. subst s.
+    destruct (path_inv_run cf K ops0) as [_ [_ HP]]. destruct (HP _ Hm) as [HPa _]. destruct (HPa Hw) as [P1 [P2 [P3 [P4 P5]]]].
     destruct (metric_inv_run cf (fun _ => True) K ops0) as [_ [_ HM]]. { apply Forall_forall; auto. }
-    destruct (HM _ Hm) as [M1 _].
+    destruct (HM _ Hm) as [HMa _]. destruct (HMa Hw) as [M1 _].
     assert (L1 : (length (a_path (m_adv m)) <= length (a_seenby (m_adv m)))%nat).
     { apply NoDup_incl_length; auto. }
     assert (ND : NoDup (a_seenby (m_adv m) ++ [m_to m])) by (apply NoDup_app_single; auto).
@@ -566,14 +648,83 @@ Section Conv.
     intros m H Ho Hq. unfold is_key in H. rewrite Ho, Hq, !N.eqb_refl in H. discriminate.
   Qed.
 
-  Lemma conv_step_deliver : forall s i dup, conv s -> conv (next cf s (Deliver i dup)).
+  (** handing over a withdrawal of some OTHER origin does not disturb the flood *)
+  Lemma conv_step_deliver_w : forall s i dup m,
+    conv s -> nth_error (st_flight s) i = Some m -> is_w (m_adv m) = true -> a_origin (m_adv m) <> o ->
+    conv (next cf s (Deliver i dup)).
   Proof.
-    intros s i dup C.
+    intros s i dup m C Nth Wm Hoo.
+    assert (Hr := reach_next s (Deliver i dup) (cv_reach s C)).
+    unfold next in *. simpl in *. rewrite Nth in *. rewrite Wm in *.
+    set (fl1 := if dup then st_flight s else remove_nth (st_flight s) i) in *.
+    assert (Hfl1 : forall x, In x fl1 -> In x (st_flight s)).
+    { unfold fl1. destruct dup; auto. intros x. apply In_remove_nth. }
+    assert (Hfl1' : forall x, In x (st_flight s) -> In x fl1 \/ x = m).
+    { unfold fl1. destruct dup; auto. intros x Hx. eapply In_remove_nth_or; eauto. }
+    assert (NotK : ~ isk m).
+    { intros Hk. destruct (isk_origin m Hk). congruence. }
+    assert (OtherKey : (a_origin (m_adv m) =? o) && (a_seq (m_adv m) =? sq) = false).
+    { apply N.eqb_neq in Hoo. rewrite Hoo. auto. }
+    destruct (handle_w (with_flight s fl1) (m_to m) (m_from m) (m_adv m)) as [[s2 out] res] eqn:E. simpl in *.
+    assert (F2 : forall x, In x (st_flight s) -> isk x -> In x fl1).
+    { intros x Hx Hk. destruct (Hfl1' x Hx) as [H|H]; auto. subst x. contradiction. }
+    destruct (get (st_nodes s) (m_to m)) as [ns|] eqn:G.
+    2:{ unfold handle_w in E. simpl in E. rewrite G in E. injection E as E1 E2 E3. subst s2 out res. simpl.
+        refine (conv_frame s _ C Hr _ _ _ _ _ _ _); simpl.
+        - apply (cv_links s C). - lia. - intros x. reflexivity.
+        - intros x e Hx He Ho. left. auto.
+        - intros x e Hx He Ho Hq. auto.
+        - intros x Hx Ho. left. rewrite app_nil_r in Hx. auto.
+        - intros x Hx Hk. left. rewrite app_nil_r. auto. }
+    destruct (handle_w_cases _ _ _ _ _ _ _ _ E G) as [[Seen [Es2 Eo]]|[Seen [ns' [Es2 [Hsn [Hsub [Hkeep Hout]]]]]]].
+    - subst s2 out. simpl.
+      refine (conv_frame s _ C Hr _ _ _ _ _ _ _); simpl.
+      + apply (cv_links s C). + lia. + intros x. reflexivity.
+      + intros x e Hx He Ho. left. auto.
+      + intros x e Hx He Ho Hq. auto.
+      + intros x Hx Ho. left. rewrite app_nil_r in Hx. auto.
+      + intros x Hx Hk. left. rewrite app_nil_r. auto.
+    - subst s2. simpl in *.
+      set (n := m_to m) in *.
+      set (s3 := {| st_nodes := set (st_nodes s) n ns'; st_links := st_links s; st_flight := fl1 ++ out; st_now := st_now s |}).
+      change (conv s3). change (exists ops0, s3 = run cf (init K) ops0) in Hr.
+      assert (SeenO : forall x, x <> n -> seen_of s3 x = seen_of s x).
+      { intros x Hx. unfold s3. erewrite seen_of_set by eauto. apply N.eqb_neq in Hx. rewrite Hx. auto. }
+      assert (SeenN : seen_of s3 n = ns_seen ns').
+      { unfold s3. erewrite seen_of_set by eauto. rewrite N.eqb_refl. auto. }
+      assert (SeenN0 : seen_of s n = ns_seen ns) by (unfold seen_of; rewrite G; auto).
+      assert (EntO : forall x, x <> n -> entries_of s3 x = entries_of s x).
+      { intros x Hx. unfold s3. erewrite entries_of_set by eauto. apply N.eqb_neq in Hx. rewrite Hx. auto. }
+      assert (EntN : entries_of s3 n = ns_entries ns').
+      { unfold s3. erewrite entries_of_set by eauto. rewrite N.eqb_refl. auto. }
+      assert (EntN0 : entries_of s n = ns_entries ns) by (unfold entries_of; rewrite G; auto).
+      refine (conv_frame s _ C Hr _ _ _ _ _ _ _).
+      + apply (cv_links s C).
+      + simpl; lia.
+      + intros x. unfold has_seen. destruct (N.eq_dec x n) as [Ex|Ex]; [|rewrite SeenO; auto].
+        subst x. rewrite SeenN, SeenN0, Hsn.
+        apply seen_has_other_key with (o' := a_origin (m_adv m)) (sq' := a_seq (m_adv m)); auto.
+      + intros x e Hx Hin Hoe. left. destruct (N.eq_dec x n) as [Ex|Ex]; [|rewrite EntO in Hin; auto].
+        subst x. rewrite EntN in Hin. rewrite EntN0. auto.
+      + intros x e Hx Hin Hoe Hqe. destruct (N.eq_dec x n) as [Ex|Ex]; [|rewrite EntO; auto].
+        subst x. rewrite EntN. rewrite EntN0 in Hin. apply Hkeep; auto. congruence.
+      + intros x Hx Hox. simpl in Hx. apply in_app_or in Hx. destruct Hx as [Hx|Hx]; auto.
+        destruct (Hout x Hx) as [A _]. congruence.
+      + intros x Hx Hk. left. simpl. apply in_or_app. auto.
+  Qed.
+
+  Lemma conv_step_deliver : forall s i dup, conv s -> no_withdrawal_of_o s (Deliver i dup) ->
+    conv (next cf s (Deliver i dup)).
+  Proof.
+    intros s i dup C Hnw.
+    destruct (nth_error (st_flight s) i) as [m|] eqn:Nth.
+    2:{ unfold next. simpl. rewrite Nth. simpl. exact C. }
+    destruct (is_w (m_adv m)) eqn:Wm.
+    { eapply conv_step_deliver_w; eauto. }
     assert (Hr := reach_next s (Deliver i dup) (cv_reach s C)).
     assert (HK : num_nodes s = K).
     { destruct (cv_reach s C) as [ops0 Es]. rewrite Es. apply reach_num_nodes. }
-    unfold next in *. simpl in *.
-    destruct (nth_error (st_flight s) i) as [m|] eqn:Nth; simpl in *; auto.
+    unfold next in *. simpl in *. rewrite Nth in *. rewrite Wm in *. simpl in *.
     set (fl1 := if dup then st_flight s else remove_nth (st_flight s) i) in *.
     assert (Hfl1 : forall x, In x fl1 -> In x (st_flight s)).
     { unfold fl1. destruct dup; auto. intros x. apply In_remove_nth. }
@@ -616,7 +767,7 @@ Section Conv.
       assert (Hk : isk m) by exact Ik.
       destruct (isk_origin m Hk) as [Ho Hq]. fold a in Ho, Hq.
       destruct (cv_msgs s C m Hm Hk) as [Hnot [Hfrom [Hmem [Hkeys HtK]]]]. fold n a from in Hnot, Hfrom, Hmem, Hkeys, HtK.
-      destruct (limits_never_apply s m (cv_reach s C) Hm Hnot HtK) as [Ov [At [Mp Hos]]]. fold n a in Ov, At, Mp, Hos.
+      destruct (limits_never_apply s m (cv_reach s C) Hm Wm Hnot HtK) as [Ov [At [Mp Hos]]]. fold n a in Ov, At, Mp, Hos.
       assert (Hno : n <> o). { intros Eq. apply Hnot. rewrite Eq. rewrite <- Ho. auto. }
       assert (Msb : memN n (a_seenby a) = false) by (apply memN_false_iff; auto).
       destruct Hcase as [[Seen [He [Hout Hsn]]]|[Seen [Hsn Hcase]]].
@@ -764,12 +915,13 @@ Section Conv.
 
   (** one step of the flood *)
   Theorem conv_step : forall s op,
-    conv s -> quiet_op op ->
+    conv s -> quiet_op op -> no_withdrawal_of_o s op ->
     (forall n, has_seen s n o sq = true -> has_seen (next cf s op) n o sq = true) ->
     conv (next cf s op).
   Proof.
-    intros s op C Hq Hkeep. destruct op as [n|i dup|n o' sq'|d|a b|a b|n k id metric|n maxage]; simpl in Hq; try contradiction.
+    intros s op C Hq Hnw Hkeep. destruct op as [n|n|i dup|n o' sq'|d|a b|a b|n k id metric|n maxage]; simpl in Hq; try contradiction.
     - apply conv_step_announce; auto.
+    - apply conv_step_withdraw; auto.
     - apply conv_step_deliver; auto.
     - apply conv_step_forget; auto.
     - apply conv_step_advance; auto.
@@ -780,7 +932,7 @@ Section Conv.
   Fixpoint quiet_run (s : state) (ops : list op) : Prop :=
     match ops with
     | [] => True
-    | op :: t => quiet_op op /\
+    | op :: t => quiet_op op /\ no_withdrawal_of_o s op /\
                  (forall n, has_seen s n o sq = true -> has_seen (next cf s op) n o sq = true) /\
                  quiet_run (next cf s op) t
     end.
@@ -788,7 +940,7 @@ Section Conv.
   Theorem conv_run : forall ops s, conv s -> quiet_run s ops -> conv (run cf s ops).
   Proof.
     induction ops as [|op t IH]; intros s C Hq; simpl; auto.
-    destruct Hq as [Q1 [Q2 Q3]]. apply IH; auto. apply conv_step; auto.
+    destruct Hq as [Q1 [Q0 [Q2 Q3]]]. apply IH; auto. apply conv_step; auto.
   Qed.
 
   (** agents reachable from the origin over the links *)
@@ -915,12 +1067,38 @@ Proof.
   exists e. repeat split; auto. apply kind_code_inj. auto.
 Qed.
 
-(** a schedule of quiet steps without Forget / Advance is a quiet run *)
+(** executable form of "no withdrawal of origin o is handed over during the run" *)
+Definition nw_step (o : N) (s : state) (op : op) : bool :=
+  match op with
+  | Deliver i _ =>
+      match nth_error (st_flight s) i with
+      | Some m => negb (is_w (m_adv m) && (a_origin (m_adv m) =? o))
+      | None => true
+      end
+  | _ => true
+  end.
+
+Fixpoint nw_run (cf : config) (o : N) (s : state) (ops : list op) : bool :=
+  match ops with
+  | [] => true
+  | op :: t => nw_step o s op && nw_run cf o (next cf s op) t
+  end.
+
+Lemma nw_step_ok : forall o s op, nw_step o s op = true -> no_withdrawal_of_o o s op.
+Proof.
+  intros o s op H. destruct op; simpl in *; auto.
+  intros m Nth Hw Ho. rewrite Nth in H. rewrite Hw in H. subst. rewrite N.eqb_refl in H. discriminate.
+Qed.
+
+(** a schedule of quiet steps without Forget / Advance, in which no
+    withdrawal of the origin is handed over, is a quiet run *)
 Lemma quiet_run_syntactic : forall cf o sq ops s,
   Forall (quiet_op o) ops -> forallb (fun op => negb (expiry_op op)) ops = true ->
+  nw_run cf o s ops = true ->
   quiet_run cf o sq s ops.
 Proof.
-  induction ops as [|op t IH]; intros s Hq He; simpl; auto.
-  inversion Hq; subst. simpl in He. apply andb_true_iff in He as [E1 E2]. apply negb_true_iff in E1.
-  repeat split; auto. intros n Hn. apply step_keeps_seen; auto.
+  induction ops as [|op t IH]; intros s Hq He Hn; simpl; auto.
+  inversion Hq; subst. simpl in He, Hn. apply andb_true_iff in He as [E1 E2]. apply negb_true_iff in E1.
+  apply andb_true_iff in Hn as [N1 N2].
+  repeat split; auto. - apply nw_step_ok; auto. - intros n Hn0. apply step_keeps_seen; auto.
 Qed.
